@@ -20,6 +20,7 @@ import json
 import os
 import re
 import subprocess
+import time
 
 from .core import AnalysisError, VERIF
 
@@ -67,10 +68,26 @@ class CDB(object):
         self.key = self._digest()
         self.dir = os.path.join(CACHE, self.key)
         os.makedirs(self.dir, exist_ok=True)
+        self._evict()
         self._ir = {}
         self._funcs = None
         self._globals = None
         self._macros = {}
+
+    def _evict(self, keep=3):
+        """The cache holds one directory per source digest; keep the newest few
+        (disk is limited and every edited tree adds one)."""
+        try:
+            os.utime(self.dir, None)
+            dirs = [os.path.join(CACHE, d) for d in os.listdir(CACHE)]
+            dirs = [d for d in dirs if os.path.isdir(d)]
+            dirs.sort(key=lambda d: os.path.getmtime(d), reverse=True)
+            import shutil
+            for d in dirs[keep:]:
+                if d != self.dir and time.time() - os.path.getmtime(d) > 600:
+                    shutil.rmtree(d, ignore_errors=True)
+        except OSError:
+            pass
 
     # -- build model ---------------------------------------------------------
     def _build_model(self):
